@@ -383,6 +383,21 @@ pub fn run(ctx: &Ctx) -> i32 {
                 ctx.sample("universe A case", json!({"tree": tree.show(), "method": "full", "params": spec.to_json(), "iters": budgets_full}));
             }
         }
+        // large payoffs (x 1000, x 1e6; exact for the universe's small integer payoffs) with a finite
+        // non-zero softmax weight: |weight| x regret spread goes far beyond 709, where a softmax
+        // that shifts by the wrong end overflows (the specification shifts by the largest scaled
+        // regret, so it only ever underflows to an exact 0)
+        for factor in [1e3, 1e6] {
+            let big = super::c03::scale(tree, factor);
+            for tuple in all_tuples.iter().filter(|t| t.w.is_finite() && t.w != 0.0) {
+                let spec = ParamSpec::Tuple(*tuple);
+                for iters in [2u64, 3, 5, 9] {
+                    let v = check_case(ctx, &big, RefMethod::Full, spec, iters, BTreeMap::new(), Fallback::First);
+                    tally(ctx, &v, true);
+                    ctx.count("large_payoff_cases_(softmax_weight_x_regret_spread_beyond_709)", 1);
+                }
+            }
+        }
         // all histories for a few tuples
         for spec in chosen_specs() {
             all_histories(ctx, tree, RefMethod::Sampled, spec, 3, 4096);
@@ -416,6 +431,20 @@ pub fn run(ctx: &Ctx) -> i32 {
                         ctx.count("pinned_histories_(hash)", 1);
                     }
                 }
+            }
+        }
+        // large payoffs with forgotten positive regrets (a = -inf) and a finite non-zero softmax
+        // weight: infosets whose cumulative regrets are all clearly negative, far apart
+        let big = super::c03::scale(tree, 1e3);
+        for p in [
+            RefParams { a: f64::NEG_INFINITY, b: f64::INFINITY, g: 0.0, w: -1.0 },
+            RefParams { a: f64::NEG_INFINITY, b: 1.0, g: 1.0, w: 1.0 },
+            RefParams { a: f64::NEG_INFINITY, b: 1.5, g: 2.0, w: -0.5 },
+        ] {
+            for iters in [2u64, 4, 7, 12] {
+                let v = check_case(ctx, &big, RefMethod::Full, ParamSpec::Tuple(p), iters, BTreeMap::new(), Fallback::First);
+                tally(ctx, &v, true);
+                ctx.count("large_payoff_cases_(softmax_weight_x_regret_spread_beyond_709)", 1);
             }
         }
         if gi % 1999 == 0 {
